@@ -10,6 +10,7 @@
 //!   S,<id>,<v>      set_counter_value (v: u64)
 //!   C,<t>           the injected clock now reads t
 //!   D               full dump through the reader
+//!   flood <nm> <nv> <count>   fill the manager, <count> further allocations, one more (see case_flood)
 //! observation: Coq list of `OStep res val_after ids` / `ODump (for_each, iter digests, probes, lookups, metadata digest, values digest)`
 //! (see coq/Model/Counters.v `obs`); the history stops at the first operation that panics.
 use aeron_rs::concurrent::atomic_buffer::{AlignedBuffer, AtomicBuffer};
@@ -272,11 +273,62 @@ fn case_seq(parts: &[&str]) -> String {
     format!("[{}]", out.join("; "))
 }
 
+/// flood <nm> <nv> <count>: fill the manager, then <count> more allocations (all must fail), then one more.
+/// observation: (counters allocated while filling, allocations that succeeded during the flood,
+///               result of the last allocation, for_each ids, digest of the label of counter 0)
+fn case_flood(parts: &[&str]) -> String {
+    let nm = num(parts[0]) as i64;
+    let nv = num(parts[1]) as i64;
+    let count = num(parts[2]) as i64;
+    let m_mem = AlignedBuffer::with_capacity((nm * 512) as i32);
+    let v_mem = AlignedBuffer::with_capacity((nv * 128) as i32);
+    let m_buf = AtomicBuffer::from_aligned(&m_mem);
+    let v_buf = AtomicBuffer::from_aligned(&v_mem);
+    NOW.store(0, Ordering::SeqCst);
+    let mut mgr = CountersManager::new_opt(m_buf, v_buf, clock, 10);
+    let reader = CountersReader::new(m_buf, v_buf);
+    let mut filled = 0i64;
+    let mut panicked = false;
+    for i in 0..(nm.max(nv) + 1) {
+        match catch(|| mgr.allocate(&mk_label(2, i, -1))) {
+            Ok(Ok(_)) => filled += 1,
+            Ok(Err(_)) => break,
+            Err(()) => {
+                panicked = true;
+                break;
+            }
+        }
+    }
+    let mut oks = 0i64;
+    if !panicked {
+        for _ in 0..count {
+            match catch(|| mgr.allocate("x")) {
+                Ok(Ok(_)) => oks += 1,
+                Ok(Err(_)) => {}
+                Err(()) => {
+                    panicked = true;
+                    break;
+                }
+            }
+        }
+    }
+    let last = if panicked { "CPanic".to_string() } else { cres(catch(|| mgr.allocate("last")), |v| v.to_string()) };
+    format!(
+        "({}, {}, {}, {}, {})",
+        filled,
+        oks,
+        last,
+        ids_obs(&reader),
+        cres(catch(|| reader.counter_label(0)), |v| hash(v.as_bytes()).to_string())
+    )
+}
+
 fn main() {
     vcommon::run_lines(|line| {
         let parts: Vec<&str> = line.split_whitespace().collect();
         match parts[0] {
             "seq" => case_seq(&parts[1..]),
+            "flood" => case_flood(&parts[1..]),
             other => panic!("unknown case kind {}", other),
         }
     });
